@@ -9,6 +9,7 @@ package main
 
 import (
 	"context"
+	"encoding/json"
 	"fmt"
 	"math"
 	"os"
@@ -291,6 +292,7 @@ func run(c *Ctx) {
 	}
 	im.Hist("probe:negative-cost-updates")
 	im.Count("probe negative-cost updates", true)
+	tickTruth(c, im)
 	meshHistories(c, im)
 	Must(cf.Write())
 	Must(im.Write(c.Out))
@@ -462,4 +464,75 @@ func meshAgrees(m *Mesh, g graph, alive map[string]bool, why *[]string) bool {
 		}
 	}
 	return ok
+}
+
+// tickTruth: the hypotheses of the clean-round theorem about a tick (Model/RouteWorld.v true_upd /
+// fresh_for) observed on the real node: every periodic own update carries the node's epoch, a
+// strictly increasing sequence number, a fresh UpdateID, the node itself as forwarder, exactly the
+// current connections with their costs, and goes to every connection.
+func tickTruth(c *Ctx, im *Impl) {
+	ctx, cancel := context.WithCancel(context.Background())
+	defer cancel()
+	n := netceptor.NewWithConsts(ctx, "self", 16384, 40*time.Millisecond, time.Hour, time.Hour, 30, time.Hour)
+	want := map[string]float64{"p1": 1, "p2": 2, "p3": 5}
+	chans := map[string]chan []byte{}
+	for id, cost := range want {
+		ch, _ := n.VerifAddConn(id, cost, 4096)
+		chans[id] = ch
+	}
+	time.Sleep(500 * time.Millisecond)
+	cancel()
+	type upd struct {
+		NodeID             string
+		UpdateID           string
+		UpdateEpoch        uint64
+		UpdateSequence     uint64
+		Connections        map[string]float64
+		ForwardingNode     string
+		SuspectedDuplicate uint64
+	}
+	perConn := map[string][]upd{}
+	for id, ch := range chans {
+		for _, m := range Drain(ch) {
+			if len(m) == 0 || m[0] != netceptor.MsgTypeRoute {
+				continue
+			}
+			var u upd
+			if json.Unmarshal(m[1:], &u) == nil {
+				perConn[id] = append(perConn[id], u)
+			}
+		}
+	}
+	ids := map[string]bool{}
+	ticks := 0
+	for id, us := range perConn {
+		var last uint64
+		for _, u := range us {
+			if u.NodeID != "self" || u.ForwardingNode != "self" || u.UpdateEpoch != n.VerifEpoch() || u.SuspectedDuplicate != 0 {
+				im.Violate(fmt.Sprintf("own update on %s does not carry the node's identity/epoch: %+v", id, u), "tick-not-true", u)
+			}
+			if u.UpdateSequence <= last {
+				im.Violate("own updates do not carry strictly increasing sequence numbers", "tick-sequence", u)
+			}
+			last = u.UpdateSequence
+			if fmt.Sprint(u.Connections) != fmt.Sprint(want) {
+				im.Violate(fmt.Sprintf("own update lists %v, the connections are %v", u.Connections, want), "tick-not-true", u)
+			}
+			ids[u.UpdateID] = true
+		}
+		if len(us) > ticks {
+			ticks = len(us)
+		}
+	}
+	for id := range want {
+		if len(perConn[id]) != ticks {
+			im.Violate(fmt.Sprintf("connection %s received %d of %d own updates", id, len(perConn[id]), ticks), "tick-not-to-all", nil)
+		}
+	}
+	if len(ids) != ticks {
+		im.Violate("two own updates share an UpdateID", "tick-id-reused", nil)
+	}
+	im.Hist("tick-truth:own-updates-observed")
+	im.Extra["own_updates_observed"] = ticks
+	im.Count("tick truth", ticks >= 3)
 }
